@@ -19,7 +19,7 @@ LEVEL_TEXT = ("Held on every generated history of the run: per key the recorded 
 LEVEL_NOTE = ("trusts the deadline model in this module and the virtual loop (CPython's scheduler with a virtual clock, FIFO order for "
               "equal deadlines); at exact coincidence both outcomes the property allows are accepted")
 RULE = (
-    "histories of 6..30 operations (add, refresh longer/shorter/to-infinite/from-infinite, stop, remove-all-for-address, "
+    "histories of 6..30 operations (add, add that the application rejects, refresh longer/shorter/to-infinite/from-infinite, stop, remove-all-for-address, "
     "connection loss, re-add) over 3 keys x 2 addresses with TTLs {1,2,3,0xFFFFFE,infinite}; each operation is placed either "
     "far from every deadline or at d-eps, d (ahead of the timer), d (behind the timer), d+eps of a pending deadline d. Drivers: "
     "TimedStore directly, Offer datagrams into a discovery endpoint, Subscribe datagrams into an announced instance. distinct = "
@@ -30,7 +30,7 @@ ASSUMPTIONS = ["coincidence = closer than the loop's clock resolution (1e-9 s); 
 FLOORS = {"quick": {"histories": 6000, "callbacks_matched": 40000, "expiries_on_time": 8000, "refresh_at_d_before": 800,
                     "refresh_at_d_after": 800, "refresh_d_minus_eps": 800, "refresh_d_plus_eps": 400, "infinite_entries_outlived_clock": 300,
                     "ttl_fffffe_expiries": 100, "driver_direct": 2000, "driver_offers": 2000, "driver_subscribes": 1500,
-                    "removed_then_no_expiry": 3000}}
+                    "removed_then_no_expiry": 3000, "rejected_new_entries": 1500}}
 
 FOREVER = 0xFFFFFF
 TTLS = (1, 1, 2, 2, 3, 3, 0xFFFFFE, FOREVER)
@@ -97,6 +97,13 @@ def gen_history(rng, driver):
         if op == "lost" and (driver == "subscribes" or rng.random() < 0.5):
             op = "stop"
         ttl = rng.choice(TTLS)
+        reject = False
+        if op == "refresh" and state[s] is None and driver != "offers" and rng.random() < 0.18:
+            # the application rejects this new entry: nothing may be recorded, no timer may stay behind
+            ops.append((t, rank, "refresh-rejected", s, ttl if ttl != FOREVER else 1, placement))
+            flags["rejected"] = flags.get("rejected", 0) + 1
+            now = t
+            continue
         if op == "refresh":
             d = state[s]
             if d is None:
@@ -162,6 +169,19 @@ class Direct:
 
     def refresh(self, slot, ttl):
         self.store.refresh(ttl, ADDRS[slot[1]], ("key", slot[0]), self._cb("new"), self._cb("stopped"))
+
+    def refresh_rejected(self, slot, ttl):
+        class Rejected(Exception):
+            pass
+
+        def refuse(entry, address):
+            raise Rejected()
+
+        try:
+            self.store.refresh(ttl, ADDRS[slot[1]], ("key", slot[0]), refuse, self._cb("stopped"))
+        except Rejected:
+            return
+        self.log.append((self.h.loop.time(), slot, "rejection-not-propagated"))
 
     def stop(self, slot):
         self.store.stop(ADDRS[slot[1]], ("key", slot[0]))
@@ -231,9 +251,14 @@ class Subscribes:
         self.sess = [net.PeerSession() for _ in ADDRS]
         outer = self
 
+        self.reject = set()
+
         class L:
             def client_subscribed(self, sub, source):
-                outer.log.append((h.loop.time(), (sub.id - 1, ADDRS.index(source)), "new"))
+                slot = (sub.id - 1, ADDRS.index(source))
+                if slot in outer.reject:
+                    raise S.NakSubscription()
+                outer.log.append((h.loop.time(), slot, "new"))
 
             def client_unsubscribed(self, sub, source):
                 outer.log.append((h.loop.time(), (sub.id - 1, ADDRS.index(source)), "stopped"))
@@ -251,6 +276,13 @@ class Subscribes:
 
     def refresh(self, slot, ttl):
         self._send(slot[1], [net.subscribe(0x2000, 1, 1, slot[0] + 1, ttl, o1=[refwire.ep4(ADDRS[slot[1]][0], 4000)])])
+
+    def refresh_rejected(self, slot, ttl):
+        self.reject.add(slot)
+        try:
+            self.refresh(slot, ttl)
+        finally:
+            self.reject.discard(slot)
 
     def stop(self, slot):
         self._send(slot[1], [net.subscribe(0x2000, 1, 1, slot[0] + 1, 0, o1=[refwire.ep4(ADDRS[slot[1]][0], 4000)])])
@@ -276,6 +308,8 @@ def execute(driver, ops, horizon, seed):
     for t, rank, op, target, ttl, _pl in ops:
         if op == "refresh":
             h.at(t, drv.refresh, target, ttl, rank=rank)
+        elif op == "refresh-rejected":
+            h.at(t, drv.refresh_rejected, target, ttl, rank=rank)
         elif op == "stop":
             h.at(t, drv.stop, target, rank=rank)
         elif op == "stop_all":
@@ -358,7 +392,9 @@ def judge(ctx, driver, ops, expected, horizon, has_inf, seed, replay):
         ctx.violation("unexpected-exception-during-run", dict(driver=driver, problem=p), replay)
     if ok:
         for t, rank, op, target, ttl, pl in ops:
-            if op == "refresh":
+            if op == "refresh-rejected":
+                ctx.count("rejected_new_entries")
+            elif op == "refresh":
                 k = {"d-eps": "refresh_d_minus_eps", "d:before": "refresh_at_d_before", "d:after": "refresh_at_d_after",
                      "d+eps": "refresh_d_plus_eps", "far": "refresh_far"}[pl]
                 ctx.count(k)
